@@ -180,7 +180,8 @@ func failingStatements(r *core.Rng) (stmts []ast.Node, where string) {
 	return
 }
 
-var parseErrTexts = []string{"{\n 1\n 2 +\n 3\n}", "[1,\n 2 3,\n 4]", "{\n x = 1\n y = = 2\n x\n}", "f = (a) -> {\n a\n ) \n a\n}", "{\n 1\n £\n 2\n}", "1 +", "(", "x = ", "if", "\"abc", "12££12", "[1, 2", "f(1,", "else 2", "}", "a b = 3", "for i <- ", "(a, b) ->", "while", "1 1", "{\n 1\n"}
+var parseErrTexts = []string{"gz = 99 )", "write(\"LEAK\") (", "ga = 5 gb = = 6", "gw = 7 gi = 8 }", "zleak = (n) -> n + 1 gz = zleak(1) ]", "gc = 4 for i, j <- elems([1]) i",
+	"{\n 1\n 2 +\n 3\n}", "[1,\n 2 3,\n 4]", "{\n x = 1\n y = = 2\n x\n}", "f = (a) -> {\n a\n ) \n a\n}", "{\n 1\n £\n 2\n}", "1 +", "(", "x = ", "if", "\"abc", "12££12", "[1, 2", "f(1,", "else 2", "}", "a b = 3", "for i <- ", "(a, b) ->", "while", "1 1", "{\n 1\n"}
 
 // suffixProbes: statements that reuse frames, contexts, the free list, closures and a top-level return.
 func suffixProbes(r *core.Rng) []ast.Node {
@@ -379,6 +380,9 @@ func c08Case(ctx *core.Ctx, idx int) core.Result {
 			}()
 			if ppan != nil {
 				return nil, fmt.Sprintf("reporting the syntax error of %q aborted the interpreter: %v", midText, ppan)
+			}
+			if strings.Count(pout, "LEAK") > strings.Count(midText, "LEAK") { // (the error display echoes the source line once)
+				return nil, fmt.Sprintf("an input with a syntax error was partly executed: %q printed %q", midText, pout)
 			}
 			if !strings.Contains(pout, "^") {
 				return nil, fmt.Sprintf("no error display for %q: %q", midText, pout)
